@@ -94,7 +94,7 @@ type c08Stats struct {
 // c08Pipeline pushes one input through decode and - if it decodes - through
 // the proxy, as a UDP-like (tcp=false) or TCP-like (tcp=true) arrival.
 // Returns "" or the oracle failure.
-func c08Pipeline(p *Proxy, data []byte, tcp bool, peerIP string, peerPort int, st *c08Stats) (fail string) {
+func c08Pipeline(p *Proxy, data []byte, tcp bool, stamp bool, peerIP string, peerPort int, st *c08Stats) (fail string) {
 	type result struct{ fail string }
 	done := make(chan result, 1)
 	go func() {
@@ -131,7 +131,7 @@ func c08Pipeline(p *Proxy, data []byte, tcp bool, peerIP string, peerPort int, s
 				tr = p.items[0].transports[1]
 			}
 			mk := func(m *Message) *RawMessage {
-				raw := NewRawMessage(peerIP, peerPort, tr, true, m)
+				raw := NewRawMessage(peerIP, peerPort, tr, stamp, m)
 				if tcp {
 					raw.TcpConn = &c20Conn{name: "inbound", failAfter: -1}
 				}
@@ -343,6 +343,7 @@ func FuzzPipeline(f *testing.F) {
 	}
 	for _, v := range c08ViaRaw {
 		f.Add([]byte(strings.Replace(valid[0], "SIP/2.0/UDP 127.0.0.9:5060;branch=z9hG4bK1;rport", v, 1)), byte(1))
+		f.Add([]byte(strings.Replace(valid[0], "SIP/2.0/UDP 127.0.0.9:5060;branch=z9hG4bK1;rport", v, 1)), byte(3))
 	}
 	for _, v := range c08RouteRaw {
 		f.Add([]byte(strings.Replace(valid[2], "<sip:127.0.0.77:5060;lr>, <sip:127.0.0.78:5070;lr>", v, 1)), byte(0))
@@ -362,7 +363,7 @@ func FuzzPipeline(f *testing.F) {
 			p, _ = c08NewProxy()
 		}
 		var st c08Stats
-		if f := c08Pipeline(p, data, flags&1 != 0, "127.0.0.9", 5060+int(flags>>4), &st); f != "" {
+		if f := c08Pipeline(p, data, flags&1 != 0, flags&2 != 0, "127.0.0.9", 5060+int(flags>>4), &st); f != "" {
 			t.Fatalf("%s\ninput: %s", f, jsonBytes(data))
 		}
 	})
@@ -413,7 +414,8 @@ func TestC08(t *testing.T) {
 			seq = append(seq, fmt.Sprintf("%s (%d bytes, tcp=%v, from %s:%d)", desc, len(data), tcp, peer, port))
 			V.Journal(t.Name()+"/pipeline", map[string]any{"sequence": seq, "last_input": jsonBytes(data)})
 			before := st.parsed
-			f := c08Pipeline(p, data, tcp, peer, port, &st)
+			stamp := rapid.Bool().Draw(rt, "received-support")
+			f := c08Pipeline(p, data, tcp, stamp, peer, port, &st)
 			V.ClassIf(tcp, "tcp-like arrival")
 			V.ClassIf(!tcp, "udp-like arrival")
 			V.ClassIf(bytes.HasPrefix(data, []byte("SIP/")), "response")
@@ -437,7 +439,7 @@ func TestC08(t *testing.T) {
 		if V.replay && V.only == "" {
 			return
 		}
-		svc, err := newStdSvc(stdVariant{})
+		svc, err := newStdSvc(stdVariant{NoReceived: [3]string{"", "true", ""}})
 		if err != nil {
 			V.HarnessError(t, "cannot start lab instance: %v", err)
 		}
@@ -495,16 +497,27 @@ func TestC08(t *testing.T) {
 				V.Journal(t.Name()+"/batches", batch)
 				V.Eval()
 				if viaTCP {
-					c, err := s.in.hub.dialTCP("hostile", s.ip(12), l.Addr, l.TCPPort)
+					// half of the TCP traffic goes to the listen entry with received-support off
+					tl := l
+					if rapid.Bool().Draw(rt, "entry without received-support") {
+						tl = s.in.cfg.Listens[1]
+					}
+					c, err := s.in.hub.dialTCP("hostile", s.ip(12), tl.Addr, tl.TCPPort)
 					if err != nil {
 						failf(rt, "the TCP listener no longer accepts connections after %v: %v", batch, err)
 					}
 					c.send(data)
-					if rapid.Bool().Draw(rt, "then garbage with blank line") {
-						c.send([]byte("\r\nGARBAGE-START-LINE\r\n\r\n"))
-						tcpGarbage, conn = true, c
-					} else {
-						defer c.close()
+					defer c.close()
+					// hostile data may legitimately leave the decoder waiting for more bytes
+					// (over-declared body, unfinished line): closure is asserted only for a
+					// fresh connection that carries one complete, definitely undecodable message
+					if rapid.Bool().Draw(rt, "plus a connection with a complete undecodable message") {
+						g, err := s.in.hub.dialTCP("garbage", s.ip(12), tl.Addr, tl.TCPPort)
+						if err != nil {
+							failf(rt, "the TCP listener no longer accepts connections after %v: %v", batch, err)
+						}
+						g.send([]byte(rapid.SampledFrom([]string{"GARBAGE-START-LINE\r\n\r\n", "INVITE sip:a@b SIP/2.0\r\nNoColonHere\r\n\r\n", "INVITE sip:a@b SIP/2.0\r\nContent-Length: -5\r\n\r\n", "SIP/2.0 abc OK\r\nContent-Length: 0\r\n\r\n", "INVITE sip:a@b SIP/2.0\r\nVia: SIP/2.0/TCP h\r\n\r\n", "\r\n\r\nX\r\n\r\n"}).Draw(rt, "garbage")))
+						tcpGarbage, conn = true, g
 					}
 				} else {
 					if len(data) > 65507 {
@@ -524,7 +537,7 @@ func TestC08(t *testing.T) {
 					time.Sleep(200 * time.Microsecond)
 				}
 				if !conn.isDead() {
-					failf(rt, "a TCP connection that carried an undecodable message (no request line, then a blank line) was not closed within 20 s; batch %v", batch)
+					failf(rt, "a fresh TCP connection that carried one complete undecodable message was not closed within 20 s; batch %v", batch)
 				}
 				V.Class("lab: garbage TCP connection closed")
 			}
